@@ -54,6 +54,12 @@ function p.loadjson(frame)
 end
 function p.retained(frame) return require("Module:utilities").bump() end
 function p.required(frame) return require("Module:chelper").bump() end
+function p.required_global(frame)
+  -- a helper that keeps its counter in a global and reads a global of the
+  -- invoking module (both live in the invocation's environment)
+  flavour = frame.args[1] or "f"
+  return require("Module:cghelper").bump()
+end
 function p.redefine(frame)
   local before = string.upper("x") .. ("y"):upper()
   string.upper = function() return "HACKED" end
@@ -98,6 +104,14 @@ function p.gfunc(frame)
 end
 return p
 """
+HELPER_G = r"""
+local m = {}
+function m.bump()
+  hits = (hits or 0) + 1
+  return tostring(hits) .. ":" .. tostring(flavour)
+end
+return m
+"""
 HELPER = r"""
 local m = {}
 local n = 0
@@ -116,6 +130,7 @@ CHANNELS = {
     "gfunc": "nil", "strdelete": "truecba2", "envpush": "nil",
     "envpush2": "nil", "mw_site": "nil", "mw_title": "nil",
     "mw_language": "nil", "mw_html": "nil", "mw_hash": "nil",
+    "required_global": "1:f",
 }
 
 TEMPLATES = {
@@ -200,6 +215,7 @@ def install(ctx, lib_extra=None):
     ctx.add_page("Module:mut", 828, MUT, model="Scribunto")
     ctx.add_page("Module:utilities", 828, HELPER, model="Scribunto")
     ctx.add_page("Module:chelper", 828, HELPER, model="Scribunto")
+    ctx.add_page("Module:cghelper", 828, HELPER_G, model="Scribunto")
     ctx.add_page("Module:cdata", 828, CDATA, model="Scribunto")
     ctx.add_page("Module:cdata.json", 828, '{"n": 0, "list": [1, 2, 3]}',
                  model="json")
